@@ -1,6 +1,10 @@
-(* Termination and totality of the visited-list walk: with the visited list consulted, fuel above the number
-   of keys (of a universe U that contains every key an edge can carry) not yet visited is never exhausted,
-   and if no lookup panics the walk ends in Ok or Err. *)
+(* Termination and totality of the visited-set walk, for every marker discipline with `terminating d = true`:
+   the set is consulted, and a key is recorded either before the test (then no edge is ever followed) or after
+   the test and removed never / only behind the callee's expansion. With fuel above the number of keys (of a
+   universe U that contains every key an edge can carry) not yet recorded the fuel is never exhausted, and if no
+   lookup panics the walk ends in Ok or Err - on every graph.
+   `cut_unmark_refuted`: a discipline that also un-marks when the re-entry test cut the edge does NOT terminate:
+   a node with two edges to itself exhausts every amount of fuel. `untested_refuted`: nor does one without test. *)
 From Coq Require Import List Bool Arith Lia.
 Import ListNotations.
 Require Import Verif.Cmds.Walk.
@@ -11,10 +15,8 @@ Section WalkProps.
   Hypothesis keqb_spec : forall a b, keqb a b = true <-> a = b.
   Variable expand : node -> outcome * list (@edge node key).
   Variable onerr : outcome.
-  Variable persist : bool.
   Notation memk := (memk keqb).
-  Notation go := (go keqb onerr true persist).
-  Notation walk := (walk keqb expand onerr true persist).
+  Notation removek := (removek keqb).
 
   Definition unseenL (L:list key) (vis:list key) : nat := length (filter (fun k => negb (memk k vis)) L).
 
@@ -23,6 +25,15 @@ Section WalkProps.
     unfold Walk.memk. rewrite existsb_exists. split.
     - intros (x & Hx & E). apply keqb_spec in E. subst. exact Hx.
     - intros H. exists k. split; [exact H|]. apply keqb_spec. reflexivity.
+  Qed.
+
+  Lemma removek_In k x l : In x (removek k l) <-> In x l /\ x <> k.
+  Proof.
+    unfold Walk.removek. rewrite filter_In. split.
+    - intros [Hi Hn]. split; [exact Hi|]. intros ->. assert (keqb k k = true) as E by (apply keqb_spec; reflexivity).
+      rewrite E in Hn. discriminate Hn.
+    - intros [Hi Hn]. split; [exact Hi|]. destruct (keqb k x) eqn:E; [|reflexivity].
+      apply keqb_spec in E. subst. contradiction.
   Qed.
 
   Lemma unseenL_mono L v1 v2 : incl v1 v2 -> unseenL L v2 <= unseenL L v1.
@@ -57,71 +68,6 @@ Section WalkProps.
   Proof. apply unseenL_mono. Qed.
   Lemma unseen_add k vis : In k U -> memk k vis = false -> unseen (k :: vis) < unseen vis.
   Proof. apply unseenL_add. Qed.
-
-  (* the visited list only grows *)
-  Lemma go_incl (rec : node -> list key -> outcome * list key) (Hrec : forall n v, incl v (snd (rec n v))) : forall es vis, incl vis (snd (go rec es vis)).
-  Proof.
-    induction es as [|[pre tgt] r IH]; intros vis; cbn [Walk.go snd]; [apply incl_refl|].
-    destruct pre; try apply incl_refl.
-    destruct tgt as [[k n']|]; [|apply IH].
-    cbn [andb]. destruct (memk k vis); [apply IH|].
-    pose proof (Hrec n' (k :: vis)) as Hi. destruct (rec n' (k :: vis)) as [o v2]. cbn [snd] in Hi.
-    assert (incl vis v2) by (intros x Hx; apply Hi; right; exact Hx).
-    destruct o; cbn [snd]; try assumption.
-    destruct persist; [eapply incl_tran; [eassumption|apply IH]|apply IH].
-  Qed.
-
-  Lemma walk_incl : forall fuel n vis, incl vis (snd (walk fuel n vis)).
-  Proof.
-    induction fuel as [|f IH]; intros n vis; cbn [Walk.walk]; [apply incl_refl|].
-    destruct (expand n) as [o es]. destruct o; try apply incl_refl.
-    apply go_incl. exact (IH).
-  Qed.
-
-  (* no node lookup and no per-call work panics *)
-  Hypothesis Hnode : forall n, fine (fst (expand n)) = true.
-  Hypothesis Hedge : forall n pre tgt, In (pre, tgt) (snd (expand n)) -> fine pre = true.
-  Hypothesis Honerr : fine onerr = true.
-
-  Lemma go_fine (rec : node -> list key -> outcome * list key) f
-    (Hrec : forall n v, unseen v < f -> fine (fst (rec n v)) = true)
-    (Hinc : forall n v, incl v (snd (rec n v))) :
-    forall es vis, (forall pre tgt, In (pre, tgt) es -> fine pre = true) ->
-                   (forall pre k n', In (pre, Some (k, n')) es -> In k U) ->
-                   unseen vis < S f -> fine (fst (go rec es vis)) = true.
-  Proof.
-    induction es as [|[pre tgt] r IH]; intros vis Hp Hk Hm; cbn [Walk.go fst]; [reflexivity|].
-    assert (Hpre : fine pre = true) by (apply (Hp pre tgt); left; reflexivity).
-    assert (Hp' : forall pre0 tgt0, In (pre0, tgt0) r -> fine pre0 = true) by (intros; eapply Hp; right; eassumption).
-    assert (Hk' : forall pre0 k n', In (pre0, Some (k, n')) r -> In k U) by (intros; eapply Hk; right; eassumption).
-    destruct pre; try discriminate Hpre; [|reflexivity].
-    destruct tgt as [[k n']|]; [|apply IH; assumption].
-    cbn [andb]. destruct (memk k vis) eqn:Ek; [apply IH; assumption|].
-    assert (Hlt : unseen (k :: vis) < f).
-    { assert (In k U) by (eapply Hk; left; reflexivity). pose proof (unseen_add k vis H Ek). lia. }
-    pose proof (Hrec n' (k :: vis) Hlt) as Hf. pose proof (Hinc n' (k :: vis)) as Hi.
-    destruct (rec n' (k :: vis)) as [o v2]. cbn [fst snd] in Hf, Hi.
-    destruct o; try discriminate Hf.
-    - apply IH; try assumption. destruct persist; [|exact Hm].
-      assert (incl vis v2) by (intros x Hx; apply Hi; right; exact Hx).
-      pose proof (unseen_mono vis v2 H). lia.
-    - cbn [fst]. exact Honerr.
-  Qed.
-
-  Theorem walk_fine : forall fuel n vis, unseen vis < fuel -> fine (fst (walk fuel n vis)) = true.
-  Proof.
-    induction fuel as [|f IH]; intros n vis Hm; [lia|].
-    cbn [Walk.walk]. pose proof (Hnode n) as Hn. pose proof (Hedge n) as He. pose proof (HU n) as Hu.
-    destruct (expand n) as [o es]. cbn [fst snd] in Hn, He.
-    destruct o; try discriminate Hn; [|reflexivity].
-    apply (go_fine (walk f) f).
-    - intros n0 v Hv. apply IH. exact Hv.
-    - intros n0 v. apply walk_incl.
-    - exact He.
-    - intros pre k n' Hin. eapply Hu; [reflexivity|exact Hin].
-    - exact Hm.
-  Qed.
-
   Lemma unseen_le vis : unseen vis <= length U.
   Proof.
     unfold unseen, unseenL.
@@ -130,11 +76,177 @@ Section WalkProps.
     apply Hle.
   Qed.
 
-  Corollary walk_total n : fine (fst (walk (S (length U)) n [])) = true.
+  (* no node lookup and no per-call work panics *)
+  Hypothesis Hnode : forall n, fine (fst (expand n)) = true.
+  Hypothesis Hedge : forall n pre tgt, In (pre, tgt) (snd (expand n)) -> fine pre = true.
+  Hypothesis Honerr : fine onerr = true.
+
+  (* ---- a key recorded after the test, removed never or behind the callee's expansion ---- *)
+  Section AfterTest.
+    Variable um : unmarking.
+    Hypothesis Hum : um <> UEveryExit.
+    Let d := {| d_test := true; d_mark := MAfterTest; d_unmark := um |}.
+    Notation go := (go keqb onerr d).
+    Notation walk := (walk keqb expand onerr d).
+
+    (* what is recorded when an edge is taken up is still recorded when the edge list is done *)
+    Lemma go_incl (rec : node -> list key -> outcome * list key) (Hrec : forall n v, incl v (snd (rec n v))) :
+      forall es vis, incl vis (snd (go rec es vis)).
+    Proof.
+      induction es as [|[pre tgt] r IH]; intros vis; cbn [Walk.go snd]; [apply incl_refl|].
+      destruct pre; try apply incl_refl.
+      destruct tgt as [[k n']|]; [|apply IH].
+      cbn [d d_test d_mark d_unmark andb]. destruct (memk k vis) eqn:Ek.
+      - destruct um; try apply IH. contradiction Hum; reflexivity.
+      - pose proof (Hrec n' (k :: vis)) as Hi. destruct (rec n' (k :: vis)) as [o v2]. cbn [snd] in Hi.
+        assert (Hv : incl vis v2) by (intros x Hx; apply Hi; right; exact Hx).
+        destruct o; cbn [snd]; try assumption.
+        assert (Hr : incl vis (removek k v2)).
+        { intros x Hx. apply removek_In. split; [apply Hv, Hx|]. intros ->.
+          apply memk_In in Hx. rewrite Hx in Ek. discriminate Ek. }
+        destruct um; (eapply incl_tran; [|apply IH]); assumption.
+    Qed.
+
+    Lemma walk_incl : forall fuel n vis, incl vis (snd (walk fuel n vis)).
+    Proof.
+      induction fuel as [|f IH]; intros n vis; cbn [Walk.walk]; [apply incl_refl|].
+      destruct (expand n) as [o es]. destruct o; try apply incl_refl.
+      apply go_incl. exact (IH).
+    Qed.
+
+    Lemma go_fine (rec : node -> list key -> outcome * list key) f
+      (Hrec : forall n v, unseen v < f -> fine (fst (rec n v)) = true)
+      (Hinc : forall n v, incl v (snd (rec n v))) :
+      forall es vis, (forall pre tgt, In (pre, tgt) es -> fine pre = true) ->
+                     (forall pre k n', In (pre, Some (k, n')) es -> In k U) ->
+                     unseen vis < S f -> fine (fst (go rec es vis)) = true.
+    Proof.
+      induction es as [|[pre tgt] r IH]; intros vis Hp Hk Hm; cbn [Walk.go fst]; [reflexivity|].
+      assert (Hpre : fine pre = true) by (apply (Hp pre tgt); left; reflexivity).
+      assert (Hp' : forall pre0 tgt0, In (pre0, tgt0) r -> fine pre0 = true) by (intros; eapply Hp; right; eassumption).
+      assert (Hk' : forall pre0 k n', In (pre0, Some (k, n')) r -> In k U) by (intros; eapply Hk; right; eassumption).
+      destruct pre; try discriminate Hpre; [|reflexivity].
+      destruct tgt as [[k n']|]; [|apply IH; assumption].
+      cbn [d d_test d_mark d_unmark andb]. destruct (memk k vis) eqn:Ek.
+      - destruct um; try (apply IH; assumption). contradiction Hum; reflexivity.
+      - assert (Hlt : unseen (k :: vis) < f).
+        { assert (In k U) by (eapply Hk; left; reflexivity). pose proof (unseen_add k vis H Ek). lia. }
+        pose proof (Hrec n' (k :: vis) Hlt) as Hf. pose proof (Hinc n' (k :: vis)) as Hi.
+        destruct (rec n' (k :: vis)) as [o v2]. cbn [fst snd] in Hf, Hi.
+        destruct o; try discriminate Hf; [|cbn [fst]; exact Honerr].
+        assert (Hv : incl vis v2) by (intros x Hx; apply Hi; right; exact Hx).
+        assert (Hr : incl vis (removek k v2)).
+        { intros x Hx. apply removek_In. split; [apply Hv, Hx|]. intros ->.
+          apply memk_In in Hx. rewrite Hx in Ek. discriminate Ek. }
+        destruct um; apply IH; try assumption.
+        + pose proof (unseen_mono vis v2 Hv). lia.
+        + pose proof (unseen_mono vis (removek k v2) Hr). lia.
+        + pose proof (unseen_mono vis (removek k v2) Hr). lia.
+    Qed.
+
+    Lemma walk_fine_after : forall fuel n vis, unseen vis < fuel -> fine (fst (walk fuel n vis)) = true.
+    Proof.
+      induction fuel as [|f IH]; intros n vis Hm; [lia|].
+      cbn [Walk.walk]. pose proof (Hnode n) as Hn. pose proof (Hedge n) as He. pose proof (HU n) as Hu.
+      destruct (expand n) as [o es]. cbn [fst snd] in Hn, He.
+      destruct o; try discriminate Hn; [|reflexivity].
+      apply (go_fine (walk f) f).
+      - intros n0 v Hv. apply IH. exact Hv.
+      - intros n0 v. apply walk_incl.
+      - exact He.
+      - intros pre k n' Hin. eapply Hu; [reflexivity|exact Hin].
+      - exact Hm.
+    Qed.
+  End AfterTest.
+
+  (* ---- a key recorded before the test: every edge looks like a re-entry, none is followed ---- *)
+  Section BeforeTest.
+    Variable um : unmarking.
+    Let d := {| d_test := true; d_mark := MBeforeTest; d_unmark := um |}.
+
+    Lemma go_fine_before (rec : node -> list key -> outcome * list key) :
+      forall es vis, (forall pre tgt, In (pre, tgt) es -> fine pre = true) -> fine (fst (go keqb onerr d rec es vis)) = true.
+    Proof.
+      induction es as [|[pre tgt] r IH]; intros vis Hp; cbn [Walk.go fst]; [reflexivity|].
+      assert (Hpre : fine pre = true) by (apply (Hp pre tgt); left; reflexivity).
+      assert (Hp' : forall pre0 tgt0, In (pre0, tgt0) r -> fine pre0 = true) by (intros; eapply Hp; right; eassumption).
+      destruct pre; try discriminate Hpre; [|reflexivity].
+      destruct tgt as [[k n']|]; [|apply IH; assumption].
+      cbn [d d_test d_mark d_unmark andb].
+      assert (memk k (k :: vis) = true) as -> by (apply memk_In; left; reflexivity).
+      apply IH. assumption.
+    Qed.
+
+    Lemma walk_fine_before : forall fuel n vis, 0 < fuel -> fine (fst (walk keqb expand onerr d fuel n vis)) = true.
+    Proof.
+      intros [|f] n vis Hf; [lia|]. cbn [Walk.walk]. pose proof (Hnode n) as Hn. pose proof (Hedge n) as He.
+      destruct (expand n) as [o es]. cbn [fst snd] in Hn, He.
+      destruct o; try discriminate Hn; [|reflexivity]. apply go_fine_before. exact He.
+    Qed.
+  End BeforeTest.
+
+  Theorem walk_fine (d:discipline) : terminating d = true ->
+    forall fuel n vis, unseen vis < fuel -> fine (fst (walk keqb expand onerr d fuel n vis)) = true.
   Proof.
-    apply walk_fine. unfold unseen, unseenL.
-    assert (forall (f:key -> bool) L, length (filter f L) <= length L) as Hle.
-    { intros f L. induction L as [|x r IH]; cbn [filter length]; [lia|]. destruct (f x); cbn [length]; lia. }
-    pose proof (Hle (fun k => negb (memk k [])) U). lia.
+    intros Hd fuel n vis Hm. destruct d as [t mk um]. unfold terminating in Hd. cbn [d_test d_mark d_unmark] in Hd.
+    destruct t; [|discriminate Hd]. destruct mk; [discriminate Hd| |].
+    - apply walk_fine_before. lia.
+    - apply walk_fine_after; [|exact Hm]. intros ->. discriminate Hd.
   Qed.
+
+  Corollary walk_total (d:discipline) : terminating d = true ->
+    forall n, fine (fst (walk keqb expand onerr d (S (length U)) n [])) = true.
+  Proof. intros Hd n. apply walk_fine; [exact Hd|]. pose proof (unseen_le []). lia. Qed.
 End WalkProps.
+
+(* ---- the disciplines that do not terminate: one graph each, every amount of fuel ---- *)
+(* one node with TWO edges to itself (a self call written twice: `if`/`else`, a retry) *)
+Definition loop2_expand (_:unit) : outcome * list (@edge unit unit) := (Ok, [(Ok, Some (tt, tt)); (Ok, Some (tt, tt))]).
+Definition unit_eqb (_ _:unit) : bool := true.
+
+Lemma removek_unit l : removek unit_eqb tt l = [].
+Proof. unfold removek. induction l as [|x r IH]; [reflexivity|]. cbn [filter unit_eqb negb]. exact IH. Qed.
+
+(* un-marking on a cut re-entry: the first edge finds the key (recorded by the caller), is cut and removes it;
+   the second edge then finds nothing and re-enters - for ever. The same graph is fine under every terminating
+   discipline (walk_total). *)
+Theorem cut_unmark_refuted : forall fuel vis, fst (walk unit_eqb loop2_expand Err d_cut_unmarks fuel tt (tt :: vis)) = OutOfFuel.
+Proof.
+  induction fuel as [|f IH]; intros vis; [reflexivity|].
+  cbn [walk loop2_expand go d_cut_unmarks d_test d_mark d_unmark].
+  change (memk unit_eqb tt (tt :: vis)) with true. cbn [andb]. rewrite removek_unit.
+  change (memk unit_eqb tt []) with false. cbn [andb].
+  specialize (IH []). destruct (walk unit_eqb loop2_expand Err d_cut_unmarks f tt [tt]) as [o v2].
+  cbn [fst] in IH. subst o. reflexivity.
+Qed.
+(* entered from outside (nothing recorded yet) the walk records the key and falls into the case above *)
+Definition loop2_from_root (b:bool) : outcome * list (@edge bool unit) :=
+  if b then (Ok, [(Ok, Some (tt, false))]) else (Ok, [(Ok, Some (tt, false)); (Ok, Some (tt, false))]).
+Corollary cut_unmark_refuted_start : forall fuel, fst (walk unit_eqb loop2_from_root Err d_cut_unmarks fuel true []) = OutOfFuel.
+Proof.
+  assert (L : forall f vis, fst (walk unit_eqb loop2_from_root Err d_cut_unmarks f false (tt :: vis)) = OutOfFuel).
+  { induction f as [|f IH]; intros vis; [reflexivity|].
+    cbn [walk loop2_from_root go d_cut_unmarks d_test d_mark d_unmark].
+    change (memk unit_eqb tt (tt :: vis)) with true. cbn [andb]. rewrite removek_unit.
+    change (memk unit_eqb tt []) with false. cbn [andb].
+    specialize (IH []). destruct (walk unit_eqb loop2_from_root Err d_cut_unmarks f false [tt]) as [o v2].
+    cbn [fst] in IH. subst o. reflexivity. }
+  intros [|f]; [reflexivity|]. cbn [walk loop2_from_root go d_cut_unmarks d_test d_mark d_unmark].
+  change (memk unit_eqb tt []) with false. cbn [andb].
+  specialize (L f []). destruct (walk unit_eqb loop2_from_root Err d_cut_unmarks f false [tt]) as [o v2]. cbn [fst] in L. subst o. reflexivity.
+Qed.
+
+(* no test at all: a single self edge is enough *)
+Theorem untested_refuted : forall fuel vis, fst (walk unit_eqb (fun _:unit => (Ok, [(Ok, Some (tt, tt))])) Err d_untested fuel tt vis) = OutOfFuel.
+Proof.
+  induction fuel as [|f IH]; intros vis; [reflexivity|].
+  cbn [walk go d_untested d_test d_mark d_unmark andb].
+  specialize (IH (tt :: vis)).
+  destruct (walk unit_eqb (fun _:unit => (Ok, [(Ok, Some (tt, tt))])) Err d_untested f tt (tt :: vis)) as [o v2].
+  cbn [fst] in IH. subst o. reflexivity.
+Qed.
+
+(* the same two-self-edges graph under the two disciplines of the repository (a test, by computation) *)
+Example loop2_terminates :
+  (fst (walk unit_eqb loop2_expand Err d_persistent 2 tt []), fst (walk unit_eqb loop2_expand Err d_in_progress 2 tt [])) = (Ok, Ok).
+Proof. vm_compute. reflexivity. Qed.
